@@ -26,7 +26,8 @@ LEVEL_NOTE = ("Trusted: Coq kernel + stdlib real axioms (sig_forall_dec, sig_not
               "remainder modelled by their meaning; `x % 1` read as x - floor x; _unwind_tensor_ptr read as _unwind_ptr element-wise. "
               "NOT proved: floating-point rounding (theorems are exact-arithmetic; e.g. with tolerance 0 a time one ulp off the grid "
               "can make offset+shift round to an integer in binary64), integer/bool storage data types (a single float type is "
-              "modelled), time tensors whose shape differs from the observation's while having the right number of dimensions, "
+              "modelled in Coq; int64 and bool records are covered by the implementation-side oracle stream ONLY: expected values from "
+              "the list-of-observations history with exact Fractions, scalar/tensor agreement, range rejection, frame, round trips), time tensors whose shape differs from the observation's while having the right number of dimensions, "
               "empty observations (nel = 0) for the out-of-place scalar insert.")
 HEADER = ("From Coq Require Import List ZArith Bool PrimFloat.\n"
           "From Inferno Require Import Base.NumF C01.Ring C02.Select C02.SelectExec.\n"
@@ -49,7 +50,11 @@ def nel(shape):
 
 
 # ------------------------------------------------------------------ generator
-def gen_val(rng):
+def gen_val(rng, dtype="f64"):
+    if dtype == "i64":
+        return float(rng.randint(-9, 9))
+    if dtype == "bool":
+        return float(rng.randint(0, 1))
     return round(rng.uniform(-9, 9), 3) + 0.1
 
 
@@ -93,12 +98,19 @@ def gen_time(rng, N, dt, tol, bad):
     return rng.choice([-tol * 2 - 1e-3, -dt, dt * (N - 1) + 2 * tol + 1e-3, dt * N, dt * (N + 2.5)]), kind
 
 
-def gen_interp(rng):
+def gen_interp(rng, dtype="f64"):
+    if dtype == "bool":          # bool tensors support neither subtraction nor a meaningful decay
+        return rng.randint(0, 2), 0.0
+    if dtype == "i64":           # mostly the interpolations whose result stays an integer
+        ic = rng.choice([0, 1, 2, 2, 2, 3, 3, 4, 5])
+        return ic, (rng.choice([2.0, 0.7, 5.0]) if ic >= 4 else 0.0)
     ic = rng.randint(0, 5)
     return ic, (rng.choice([2.0, 0.7, 5.0]) if ic >= 4 else 0.0)
 
 
-def gen_extrap(rng):
+def gen_extrap(rng, dtype="f64"):
+    if dtype != "f64":           # extrapolations that write storable (integer / bool) values
+        return rng.randint(0, 3), 0.0
     ec = rng.randint(0, 7)
     if ec in (4, 5):
         return ec, rng.choice([0.0, 0.0, 0.5, 1.5])
@@ -109,7 +121,11 @@ def other_shape(rng, shape):
     return rng.choice([s for s in SHAPES if s != shape])
 
 
-def gen_case(rng: random.Random, malformed: bool):
+def match_of(ec, dtype):
+    return [ic for ic in MATCH[ec] if not (dtype == "bool" and ic == 3)]
+
+
+def gen_case(rng: random.Random, malformed: bool, dtype: str = "f64"):
     N = rng.choice([1, 2, 2, 3, 3, 4, 5, 6])
     dt = rng.choice(DTS)
     shape = rng.choice(SHAPES)
@@ -117,26 +133,29 @@ def gen_case(rng: random.Random, malformed: bool):
     ops, rt = [], []
     if malformed and rng.random() < 0.25:
         # operations on uninitialised storage
-        ic, par = gen_interp(rng)
+        ic, par = gen_interp(rng, dtype)
         ops.append(["selS", 1e-6, 1, 0.0, ic, par])
-        ec, par = gen_extrap(rng)
-        ops.append(["insS", shape, [gen_val(rng) for _ in range(n)], 1e-6, 0, 0.0, ec, par, False])
+        ec, par = gen_extrap(rng, dtype)
+        ops.append(["insS", shape, [gen_val(rng, dtype) for _ in range(n)], 1e-6, 0, 0.0, ec, par, False])
     for _ in range(N + rng.randint(0, N)):          # fill the record; pointer ends anywhere
-        ops.append(["push", [gen_val(rng) for _ in range(n)]])
+        ops.append(["push", [gen_val(rng, dtype) for _ in range(n)]])
     for _ in range(rng.randint(3, 9)):
         tol = gen_tol(rng, dt)
         off = rng.randint(-1, N + 1)
         bad = malformed and rng.random() < 0.3 or rng.random() < 0.05
-        kind = rng.choice(["selS", "selS", "selT", "selT", "insS", "insS", "insT", "insT", "rtS", "rtT", "push", "incr"])
+        kind = rng.choice(["selS", "selS", "selT", "selT", "insS", "insS", "insT", "insT", "rtS", "rtT", "push", "incr"]
+                          if dtype == "f64" else
+                          ["selS", "selS", "selS", "selS", "selT", "selT", "selT", "insS", "insT", "rtS", "rtS", "rtT",
+                           "push", "incr"])
         if kind == "push":
-            ops.append(["push", [gen_val(rng) for _ in range(n)]])
+            ops.append(["push", [gen_val(rng, dtype) for _ in range(n)]])
         elif kind == "incr":
             ops.append(["incr", rng.randint(0, N)])
         elif kind == "selS":
-            ic, par = gen_interp(rng)
+            ic, par = gen_interp(rng, dtype)
             ops.append(["selS", tol, off, gen_time(rng, N, dt, tol, bad)[0], ic, par])
         elif kind == "selT":
-            ic, par = gen_interp(rng)
+            ic, par = gen_interp(rng, dtype)
             if malformed and rng.random() < 0.15:
                 tshape = shape + [2, 1]
             elif rng.random() < 0.4:
@@ -146,28 +165,36 @@ def gen_case(rng: random.Random, malformed: bool):
             ops.append(["selT", tol, off, tshape, [gen_time(rng, N, dt, tol, bad and rng.random() < 0.3)[0]
                                                    for _ in range(nel(tshape))], ic, par])
         elif kind in ("insS", "rtS"):
-            ec, par = gen_extrap(rng)
+            ec, par = gen_extrap(rng, dtype)
             sh = other_shape(rng, shape) if (malformed and rng.random() < 0.1) else shape
             t = gen_time(rng, N, dt, tol, bad)[0]
-            ops.append(["insS", sh, [gen_val(rng) for _ in range(nel(sh))], tol, off, t, ec, par, rng.random() < 0.5])
+            ops.append(["insS", sh, [gen_val(rng, dtype) for _ in range(nel(sh))], tol, off, t, ec, par, rng.random() < 0.5])
             if kind == "rtS":
                 rt.append(len(ops) - 1)
-                ops.append(["selS", tol, off, t, rng.choice(MATCH[ec]), par])
+                ops.append(["selS", tol, off, t, rng.choice(match_of(ec, dtype)), par])
         else:
-            ec, par = gen_extrap(rng)
+            ec, par = gen_extrap(rng, dtype)
             sh = other_shape(rng, shape) if (malformed and rng.random() < 0.1) else shape
             tsh = other_shape(rng, shape) if (malformed and rng.random() < 0.1) else sh
             times = [gen_time(rng, N, dt, tol, bad and rng.random() < 0.3)[0] for _ in range(nel(tsh))]
-            ops.append(["insT", sh, [gen_val(rng) for _ in range(nel(sh))], tol, off, tsh, times, ec, par,
+            ops.append(["insT", sh, [gen_val(rng, dtype) for _ in range(nel(sh))], tol, off, tsh, times, ec, par,
                         rng.random() < 0.5])
             if kind == "rtT" and tsh == shape and sh == shape:
                 rt.append(len(ops) - 1)
-                ops.append(["selT", tol, off, tsh, times, rng.choice(MATCH[ec]), par])
-    return {"N": N, "dt": dt, "shape": shape, "ops": ops, "rt": rt}
+                ops.append(["selT", tol, off, tsh, times, rng.choice(match_of(ec, dtype)), par])
+    case = {"N": N, "dt": dt, "shape": shape, "ops": ops, "rt": rt}
+    if dtype != "f64":
+        case["dtype"] = dtype
+    return case
 
 
 def gen_cases(rng, n):
     return [gen_case(rng, malformed=(i % 4 == 3)) for i in range(n)]
+
+
+def gen_nonfloat_cases(rng, n):
+    """records with int64 / bool storage: implementation + oracle only (the Coq model fixes one float type)"""
+    return [gen_case(rng, malformed=(i % 8 == 7), dtype=("i64" if i % 3 else "bool")) for i in range(n)]
 
 
 def exhaustive_cases():
@@ -440,8 +467,11 @@ def oracle_case(case, trace):
     return fails
 
 
-def signature(f):
-    return {"what": f["what"], "op": f["op"][0]}
+def signature(f, case=None):
+    sig = {"what": f["what"], "op": f["op"][0]}
+    if case is not None and case.get("dtype", "f64") != "f64":
+        sig["dtype"] = case["dtype"]
+    return sig
 
 
 # ------------------------------------------------------------------ run
@@ -479,25 +509,36 @@ def compare(case, ti, tm):
     return None
 
 
+def is_float_case(c):
+    return c.get("dtype", "f64") == "f64"
+
+
 def run(ctx):
     rng = random.Random(ctx["seed"])
-    n = 260 if ctx["tier"] == "quick" else 3000
-    cases = load_corpus() + gen_cases(rng, n)
-    exhaustive = ctx["tier"] == "thorough"
+    quick = ctx["tier"] == "quick"
+    n = 260 if quick else 3000
+    corpus = load_corpus()
+    fcases = [c for c in corpus if is_float_case(c)] + gen_cases(rng, n)
+    exhaustive = not quick
     if exhaustive:
-        cases += exhaustive_cases()
+        fcases += exhaustive_cases()
+    # non-float storage (int64 / bool records): implementation-side oracle only, own random stream
+    ncases = [c for c in corpus if not is_float_case(c)] + \
+        gen_nonfloat_cases(random.Random(ctx["seed"] * 7919 + 13), 120 if quick else 1500)
+    cases = fcases + ncases
     impl = F.run_impl(IMPL, {"cases": cases})
-    model = F.eval_terms(ID, HEADER, [q_case(c) for c in cases], shard=20 if ctx["tier"] == "quick" else 100)
+    model = F.eval_terms(ID, HEADER, [q_case(c) for c in fcases], shard=20 if quick else 100)
     mismatches, oracle_fail = [], []
-    for c, ti, tm in zip(cases, impl, model):
+    for c, ti, tm in zip(fcases, impl, model):
         if isinstance(tm, Exception):
             mismatches.append({"case": c, "detail": str(tm)})
         else:
             d = compare(c, ti, tm)
             if d is not None:
                 mismatches.append({"case": c, "detail": d})
+    for c, ti in zip(cases, impl):
         for f in oracle_case(c, ti)[:1]:
-            oracle_fail.append({"case": c, "detail": f, "signature": signature(f)})
+            oracle_fail.append({"case": c, "detail": f, "signature": signature(f, c)})
     dist = Counter(o[0] for c in cases for o in c["ops"])
     errs = Counter(("err%d" % t[0][1]) for tr in impl for t in tr if t[0][0] == 1)
     kinds = Counter()
@@ -516,14 +557,18 @@ def run(ctx):
                 "outside / off grid / at both range limits / out of range, 6 interpolations, 8 extrapolations, in-place and not, "
                 "insert+select round trips over the shipped matching pairs; every 4th case from a malformed stream); "
                 "non-trivial = at least one on-grid and one off-grid in-range time; distinct by full case text"
-                + ("; plus exhaustive small scope: N<=3, every pointer, offsets 0..N, 6 interpolations, all time kinds" if exhaustive else ""),
+                + ("; plus exhaustive small scope: N<=3, every pointer, offsets 0..N, 6 interpolations, all time kinds" if exhaustive else "")
+                + "; plus an oracle-only stream of the same sequences on int64 and bool records (integer-preserving extrapolations; "
+                  "expected values from the list-of-observations history with exact Fractions; scalar vs tensor agreement)",
         "op_distribution": dict(dist), "error_distribution": dict(errs), "time_kind_distribution": dict(kinds),
         "roundtrip_pairs": dict(pairs),
         "N_distribution": dict(Counter(c["N"] for c in cases)),
         "dt_distribution": dict(Counter(str(c["dt"]) for c in cases)),
         "samples": cases[:2],
         "mismatches": mismatches, "oracle_failures": oracle_fail,
-        "traces_validated_against_impl": len(cases) - len(mismatches),
+        "traces_validated_against_impl": len(fcases) - len(mismatches),
+        "model_correspondence_cases": len(fcases), "nonfloat_oracle_only_cases": len(ncases),
+        "storage_dtype_distribution": dict(Counter(c.get("dtype", "f64") for c in cases)),
     }
 
 
